@@ -77,6 +77,18 @@ func File(path string, o Options) (Dump, error) {
 	return DB(db, o)
 }
 
+// FileWAL opens read-write in write-ahead-log mode. go-sqlite3 v1.11 switches a database to its default
+// journal mode on open unless the DSN names one, which fails ("database is locked" / "disk I/O error")
+// while another connection has the write-ahead log attached: WAL databases must be opened this way.
+func FileWAL(path string, o Options) (Dump, error) {
+	db, err := sql.Open("sqlite3", "file:"+path+"?_journal=WAL&_busy_timeout=10000")
+	if err != nil {
+		return nil, err
+	}
+	defer db.Close()
+	return DB(db, o)
+}
+
 // FileRW opens read-write (needed for hot-journal recovery of crash images).
 func FileRW(path string, o Options) (Dump, error) {
 	db, err := sql.Open("sqlite3", "file:"+path+"?_busy_timeout=10000")
